@@ -32,7 +32,7 @@ pub struct Case {
 const STUB: u16 = 0x8000;
 
 fn pattern(seed: u64, bank: usize, len: usize) -> Vec<u8> {
-    let mut x = seed ^ ((bank as u64 + 1) * 0x9E3779B97F4A7C15);
+    let mut x = seed ^ ((bank as u64 + 1).wrapping_mul(0x9E3779B97F4A7C15));
     (0..len)
         .map(|i| {
             x ^= x << 13;
